@@ -419,10 +419,23 @@ _public_ int m_ctx_deregister(void) {
     M_CTX_ASSERT();
     M_PARAM_ASSERT(c->state == M_CTX_IDLE);
 
+    /*
+     * Deregister every module while the ctx is still the thread's one (modules can
+     * only be operated from their own context); no more IDLE, so that last module's
+     * deregistration does not try to deregister the ctx again.
+     */
+    c->state = M_CTX_ZOMBIE;
+    ssize_t len;
+    do {
+        len = m_map_len(c->modules);
+        m_iterate(c->modules, ctx_destroy_mods, NULL);
+    } while (m_map_len(c->modules) > 0 && m_map_len(c->modules) < len);
+
     int ret = pthread_setspecific(key, NULL);
     if (ret == 0) {
-        m_iterate(c->modules, ctx_destroy_mods, NULL);
         m_mem_unref(c);
+    } else {
+        c->state = M_CTX_IDLE;
     }
     return ret;
 }
@@ -455,6 +468,7 @@ _public_ int m_ctx_fd(void) {
 
 _public_ int m_ctx_dispatch(void) {
     M_CTX_ASSERT();
+    M_PARAM_ASSERT(c->state != M_CTX_ZOMBIE);
 
     if (c->state == M_CTX_IDLE) {
         /* Ok, start now */
